@@ -144,7 +144,7 @@ func (te *tableEngine) openGame(oldTable *Table) (*Table, error) {
 
 func (te *tableEngine) startGame() error {
 	rule := te.table.Meta.Rule
-	blind := te.table.State.BlindState
+	blind := *te.table.State.BlindState // the level in force now: a later UpdateBlind must not change this hand
 
 	// create game options
 	opts := pokerface.NewStardardGameOptions()
